@@ -100,8 +100,7 @@ def rule_restart_shape(ctx):
             ctx.violation(RESTART + "|snapshot-touch|1", site(fn, bi, si), "restart touches the snapshot even when clear_snapshot is false")
 
 
-def update_guard(ctx, prop_prefix):
-    """Shared by C06/C12: the only Snapshot::update call sits behind running && !was_canceled && !state.canceled()."""
+def _update_guard_tick(ctx, prop_prefix):
     ti = get_fn(ctx.facts, "nucleo", TICK_INNER)
     ups = calls_to(ctx.facts, "nucleo", lambda t: callee(t) == "Snapshot::<T>::update")
     ctx.floor("calls of Snapshot::update", len(ups), 1)
@@ -147,6 +146,12 @@ def update_guard(ctx, prop_prefix):
                           "the worker's pattern is overwritten with the matcher's current pattern before Snapshot::update copies the finished run: the snapshot gets the new pattern together with the old run's matches and scores")
         else:
             ctx.ok(site(fn, bi), "Snapshot::update runs before the worker's pattern is replaced (%d write site(s) after it)" % len(wr))
+
+
+def update_guard(ctx, prop_prefix):
+    """Shared by C06/C12: the only Snapshot::update call sits behind running && !was_canceled && !state.canceled()."""
+    if not getattr(ctx, "tick_flat", False):
+        _update_guard_tick(ctx, prop_prefix)
     # was_canceled at the end of a run == "the run was cancelled": (a) every path to a return writes it (no stale value
     # from the previous run), (b) on the cancelled edge of the sort it ends up true, (c) it is only set to false where
     # no cancellation can have happened yet
